@@ -44,11 +44,10 @@ NEW = ["DW", "DWT", "DK", "DO", "DOF", "DAr", "DGen_u32", "DGen_String", "DGen_D
 _cache = {}
 
 
-def fields(inst, promised):
-    k = (inst, promised)
-    if k not in _cache:
-        _cache[k] = tables().fields_of(inst, promised)
-    return _cache[k]
+def fields(inst):
+    if inst not in _cache:
+        _cache[inst] = tables().fields_of(inst)
+    return _cache[inst]
 
 
 def value_of(fld, fd, M):
@@ -75,7 +74,7 @@ def expected2(inst, v, M):
         v = {"t": "obj", "f": []}
     if v["t"] != "obj":
         raise D.SpecErr("de")
-    S = fields(inst, M.promised)
+    S = fields(inst)
     once, many = {}, {f["name"]: [] for f in S if f["dup"] == "dup"}
     for fd in v["f"]:
         fld = select(S, fd, M)
@@ -103,16 +102,12 @@ def expected2(inst, v, M):
 
 
 class M2(D.Mode):
-    promised = True
-
     def derived(self, sname, v, M):
         return expected2(sname, v, M)
 
 
-def mode(kind, promised, **kw):
-    m = M2(kind, **kw)
-    m.promised = promised
-    return m
+def mode(kind, **kw):
+    return M2(kind, **kw)
 
 
 def exp_str(inst, doc, M):
@@ -125,7 +120,7 @@ def exp_str(inst, doc, M):
 def model_kvs2(inst, doc, M):
     """the key/value list the MapAccess delivers to the generated visitor; None: outside the visitor
     (a key that does not resolve under the `error` strategy fails in next_key)"""
-    S = fields(inst, False)
+    S = fields(inst)
     out = []
     for fd in doc["f"]:
         fld = select_code(S, fd, M)
@@ -161,7 +156,7 @@ def select_code(S, fd, M):
 def register(C18):
     """make the new instances known to the generators of props/C18.py (old table format is a subset of ours)"""
     for inst in NEW:
-        C18.ALL[inst] = fields(inst, False)
+        C18.ALL[inst] = fields(inst)
 
 
 def vectors(ctx, rng, S, n_small, n_large):
@@ -181,15 +176,10 @@ def vectors(ctx, rng, S, n_small, n_large):
     return [tuple(pick(f) for f in S) for _ in range(n_large)] + [tuple(1 for _ in S), tuple(0 for _ in S), tuple(3 for _ in S)]
 
 
-def classify(ctx, stream_key, case, out, exp_prop, exp_code, inst):
-    if out == exp_prop:
-        return
-    if out == exp_code and exp_code != exp_prop:
-        ctx.fail("option-default-fn", "%s: `default = \"fn\"` on an Option field is never called: %s, the property text (missing fields take their default fn) says %s"
-                 % (inst, out[:160], exp_prop[:160]), [case], [out], exp_prop)
-        return
-    ctx.fail(stream_key, "%s returns %s, the field semantics of the attribute table read off the source say %s" % (case.split("\t")[0:2], out[:200], exp_prop[:200]),
-             [case], [out], exp_prop)
+def classify(ctx, stream_key, case, out, exp):
+    if out != exp:
+        ctx.fail(stream_key, "%s returns %s, the field semantics of the attribute table read off the source say %s" % (case.split("\t")[0:2], out[:200], exp[:200]),
+                 [case], [out], exp)
 
 
 def make_doc(C18, rng, inst, order, unknowns, bad):
@@ -231,7 +221,7 @@ def run(ctx, C18):
     pcases, pmeta, mcases, scases = [], [], [], []
     for inst in NEW + list(C18.STRUCTS):
         new = inst in NEW
-        S = fields(inst, False)
+        S = fields(inst)
         attrs = T.attrs_arg(inst)
         vs = vectors(ctx, rng, S, ctx.scale(110, 256), ctx.scale(130, 600)) if new else vectors(ctx, rng, S, ctx.scale(40, 64), ctx.scale(50, 200))
         for mult in vs:
@@ -243,15 +233,11 @@ def run(ctx, C18):
                 res = D.resolver_spec(ids, known, rng.choice(["map", "lines"]))
                 mt = D.max_token_len(doc, enc)
                 num = numeric_unknown(S, doc)
-                exps = {}
-                for kind in ("text", "bin"):
-                    for promised in (True, False):
-                        M = mode(kind, promised, enc=enc) if kind == "text" else mode(kind, promised, flavor=fl, strategy=strat, known=known, ids=ids)
-                        exps[(kind, promised)] = exp_str(inst, doc, M)
+                Mt, Mb = mode("text", enc=enc), mode("bin", flavor=fl, strategy=strat, known=known, ids=ids)
+                exps = {"text": exp_str(inst, doc, Mt), "bin": exp_str(inst, doc, Mb)}
                 if any("unfit" in e for e in exps.values()):
                     continue
                 ctx.count("attrs_inputs_" + inst)
-                Mt, Mb = mode("text", False, enc=enc), mode("bin", False, flavor=fl, strategy=strat, known=known, ids=ids)
                 kt, kb2 = model_kvs2(inst, doc, Mt), model_kvs2(inst, doc, Mb)
                 if not num and kt is not None:
                     mcases.append("\t".join(["dw.text.m", "slice", enc, inst, hx(txt), attrs, kt]))
@@ -263,18 +249,18 @@ def run(ctx, C18):
                         scases.append("\t".join(["dw.bin.s", "slice", strat, res, fl, inst, hx(b), attrs, kb2]))
                 if not new:
                     continue
-                ctx.count("attrs_expect_" + (exps[("text", True)][:8] if exps[("text", True)].startswith("ERR") else "value"))
+                ctx.count("attrs_expect_" + (exps["text"][:8] if exps["text"].startswith("ERR") else "value"))
                 if not num:
                     for p in ["slice", "tape", "objreader", "reader:%d:%s" % (rng.choice([mt, 64 + mt, 32768]), rng.choice(["-", "1*", "3,5*"]))]:
                         pcases.append("\t".join(["dw.text", p, enc, inst, hx(txt)]))
-                        pmeta.append((exps[("text", True)], exps[("text", False)], p, inst))
+                        pmeta.append((exps["text"], p))
                 for p in ["tape", "slice", "reader:%d:%s" % (rng.choice([max(32, mt + 4), 64 + mt, 32768]), rng.choice(["-", "1*", "3,5*"]))]:
                     pcases.append("\t".join(["dw.bin", p, strat, res, fl, inst, hx(b)]))
-                    pmeta.append((exps[("bin", True)], exps[("bin", False)], "bin-" + p, inst))
+                    pmeta.append((exps["bin"], "bin-" + p))
     impl, _ = ctx.correspond("attrs_paths", pcases, nontrivial=nt, model=False)
     base = len(impl) - len(pcases)
-    for k, (ep, ec, p, inst) in enumerate(pmeta):
-        classify(ctx, "attrs-semantics-" + p.split(":")[0], pcases[k], impl[base + k], ep, ec, inst)
+    for k, (exp, p) in enumerate(pmeta):
+        classify(ctx, "attrs-semantics-" + p.split(":")[0], pcases[k], impl[base + k], exp)
     ctx.correspond("attrs_model", mcases, nontrivial=nt)
     ctx.correspond("attrs_spec", scases, nontrivial=nt)
 
@@ -307,7 +293,7 @@ def run_perm(ctx, C18):
     insts = NEW + list(C18.STRUCTS)
     for _ in range(ctx.scale(700, 3000)):
         inst = rng.choice(insts)
-        S = fields(inst, False)
+        S = fields(inst)
         tokened = S[0]["token"] is not None
         mult = [rng.choice([1, 1, 1, 1, 0, 2]) if f["dup"] == "once" else rng.choice([0, 1, 2, 3]) for f in S]
         occ = [i for i, m in enumerate(mult) for _ in range(m)]
@@ -333,7 +319,7 @@ def run_perm(ctx, C18):
         num = numeric_unknown(S, doc)
         # which error is met first depends on the order (streaming visitor): only documents whose declared
         # fields all have well-typed values (C18_perm_invariant: values_ok)
-        kvs = [model_kvs2(inst, doc, mode("text", False, enc=enc)), model_kvs2(inst, doc, mode("bin", False, flavor=fl, strategy=strat, known=known, ids=ids))]
+        kvs = [model_kvs2(inst, doc, mode("text", enc=enc)), model_kvs2(inst, doc, mode("bin", flavor=fl, strategy=strat, known=known, ids=ids))]
         if any(k is None or "=e" in k for k in kvs):
             continue
         ctx.count("perm_docs")
@@ -368,7 +354,7 @@ def run_intkeys(ctx, C18):
     insts = [i for i in NEW + list(C18.STRUCTS)]
     for _ in range(ctx.scale(200, 1200)):
         inst = rng.choice(insts)
-        S = fields(inst, False)
+        S = fields(inst)
         occ = [i for i, f in enumerate(S) for _ in range(1 if f["dup"] != "dup" else rng.choice([0, 1, 2]))]
         rng.shuffle(occ)
         doc, ids = make_doc(C18, rng, inst, occ, 0, 0.0)
@@ -376,7 +362,7 @@ def run_intkeys(ctx, C18):
         enc, fl, known, strat = env_of(rng, ids)
         known = set(ids)
         res = D.resolver_spec(ids, known, "map")
-        exp = exp_str(inst, doc, mode("bin", True, flavor=fl, strategy=strat, known=known, ids=ids))
+        exp = exp_str(inst, doc, mode("bin", flavor=fl, strategy=strat, known=known, ids=ids))
         if not exp.startswith("(struct"):
             continue
         parts = [D.render_bin({"t": "obj", "f": [fd], "ghost": []}, fl) for fd in doc["f"]]
